@@ -385,47 +385,63 @@ func splitPathImpl(expr string) []string {
 		return out
 	}
 
-	// Full parsing with bracket support
-	var b strings.Builder
-	b.Grow(len(expr) + 8)
+	// Full parsing with bracket support. A quoted key - m['a.b'], m["x]y"] -
+	// is one step whatever it contains; everything else is split at the dots.
+	var out []string
+	var cur strings.Builder
+	flush := func() {
+		for _, p := range strings.Split(cur.String(), ".") {
+			if p = strings.TrimSpace(p); p != "" {
+				out = append(out, p)
+			}
+		}
+		cur.Reset()
+	}
 	i := 0
 	for i < len(expr) {
 		ch := expr[i]
-		if ch == '[' {
-			j := i + 1
-			for j < len(expr) && expr[j] != ']' {
-				j++
-			}
-			if j >= len(expr) {
-				b.WriteByte(ch)
-				i++
-				continue
-			}
-			inside := strings.TrimSpace(expr[i+1 : j])
-			if len(inside) >= 2 && ((inside[0] == '\'' && inside[len(inside)-1] == '\'') || (inside[0] == '"' && inside[len(inside)-1] == '"')) {
-				inside = inside[1 : len(inside)-1]
-			}
-			if inside != "" {
-				b.WriteByte('.')
-				b.WriteString(inside)
-			}
-			i = j + 1
-		} else {
-			b.WriteByte(ch)
+		if ch != '[' {
+			cur.WriteByte(ch)
 			i++
-		}
-	}
-
-	builtStr := b.String()
-	parts := strings.Split(builtStr, ".")
-	// Sanitize in-place to avoid extra allocation
-	out := parts[:0]
-	for _, p := range parts {
-		p = strings.TrimSpace(p)
-		if p == "" {
 			continue
 		}
-		out = append(out, p)
+		// the closing bracket: after the closing quote when the content is quoted
+		j := i + 1
+		for j < len(expr) && (expr[j] == ' ' || expr[j] == '\t') {
+			j++
+		}
+		quoted := false
+		if j < len(expr) && (expr[j] == '\'' || expr[j] == '"') {
+			if end := strings.IndexByte(expr[j+1:], expr[j]); end >= 0 {
+				j += end + 2
+				quoted = true
+			}
+		}
+		for j < len(expr) && expr[j] != ']' {
+			j++
+		}
+		if j >= len(expr) {
+			cur.WriteByte(ch)
+			i++
+			continue
+		}
+		inside := strings.TrimSpace(expr[i+1 : j])
+		if len(inside) >= 2 && ((inside[0] == '\'' && inside[len(inside)-1] == '\'') || (inside[0] == '"' && inside[len(inside)-1] == '"')) {
+			inside = inside[1 : len(inside)-1]
+		} else {
+			quoted = false
+		}
+		flush()
+		if quoted {
+			if inside = strings.TrimSpace(inside); inside != "" {
+				out = append(out, inside)
+			}
+		} else {
+			cur.WriteString(inside)
+			flush()
+		}
+		i = j + 1
 	}
+	flush()
 	return out
 }
